@@ -1,13 +1,17 @@
 use crate::engine::Property;
 
+pub mod c01;
+pub mod c03;
 pub mod c16;
 
 pub fn all_ids() -> Vec<&'static str> {
-    vec!["C16"]
+    vec!["C01", "C03", "C16"]
 }
 
 pub fn build(id: &str) -> Option<Property> {
     match id {
+        "C01" => Some(c01::property()),
+        "C03" => Some(c03::property()),
         "C16" => Some(c16::property()),
         _ => None,
     }
